@@ -1341,7 +1341,7 @@ Theorem model_history ops : forall raw,
   model_run raw ops = Ok (run (map hop_wop ops) raw) /\ run (map hop_wop ops) raw < 2 ^ d_W d.
 Proof.
   intros raw Hvd Hcnt. revert raw. unfold run.
-  unfold valid_decl in Hvd. apply andb_prop in Hvd. destruct Hvd as [Hvd _]. apply andb_prop in Hvd. destruct Hvd as [HW Hvf].
+  destruct (valid_decl_parts d Hvd) as (HW & Hvf & _ & _).
   rewrite forallb_forall in Hvf. rewrite Forall_forall in Hcnt.
   induction ops as [|o ops IH]; cbn [model_run map fold_left]; intros raw Hall Hraw; [auto|].
   inversion Hall as [|o' ops' (Hin & Hset & Hdup & Hi & Hv) Hops]; subst.
